@@ -554,6 +554,119 @@ def _build_2d(c):
 
 
 # ---------------------------------------------------------------------------------------------
+# lengths that line up with plausible internal block sizes (round-e lesson: a blocked implementation is exact except when the
+# number of samples or of rfft bins is an exact multiple of its block).  The O(n^2) Float twin is too slow there, so the real
+# code is compared with the NumPy evaluation of the SAME model formula (irfft(rfft(w) * exp(-2 pi i k s / n)), Nyquist bin
+# multiplied by cos(pi s)); that evaluation is itself compared with the Lean twin on every small length of this run.
+# ---------------------------------------------------------------------------------------------
+def np_model_fshift(w, s, axis):
+    w = np.asarray(w, dtype=np.float64)
+    n = w.shape[axis]
+    k = np.arange(n // 2 + 1, dtype=np.float64)
+    shp = [1] * w.ndim; shp[axis] = -1
+    k = k.reshape(shp)
+    s = np.asarray(s, dtype=np.float64)
+    if s.ndim:
+        ss = list(w.shape); ss[axis] = 1
+        s = s.reshape(ss)
+    ph = np.exp(-2j * np.pi * k * s / n)
+    if n % 2 == 0:
+        idx = [slice(None)] * w.ndim; idx[axis] = slice(n // 2, n // 2 + 1)
+        ph = np.broadcast_to(ph, np.broadcast_shapes(ph.shape, tuple(1 if i == (axis % w.ndim) else d for i, d in enumerate(w.shape)))).copy()
+        ph[tuple(idx)] = np.cos(np.pi * s)
+    return np.fft.irfft(np.fft.rfft(w, axis=axis) * ph, n, axis=axis)
+
+
+def block_lengths(ctx):
+    out = set()
+    for k in range(8, ctx.n(13, 15)):
+        B = 2 ** k
+        out |= {B - 2, B - 1, B, B + 1, B + 2, 2 * B - 2, 2 * B - 1, 3 * B, 3 * B - 2, 3 * B - 1}
+    out |= {1000, 2000, 2500, 3000, 5000, 10000}
+    return sorted(out)
+
+
+def build_long(c):
+    r = np.random.default_rng([c['seed'], 91])
+    n, ntr = c['n'], c['ntr']
+    w = r.standard_normal((ntr, n))
+    if c['mode'] == 'scalar_int':
+        sv = float(r.integers(-n, n + 1))
+    elif c['mode'] == 'scalar_frac':
+        sv = float(r.uniform(-5, 5))
+    elif c['mode'] == 'pertrace_int':
+        sv = r.integers(-7, 8, size=ntr).astype(float)
+    elif c['mode'] == 'adc':
+        sv = -np.resize(adc_table(2)[:ntr], ntr)
+    else:
+        sv = r.uniform(-3, 3, size=ntr)
+    if c['axis'] in (0, -2):
+        w = np.ascontiguousarray(w.T)
+    return w, sv
+
+
+def _corr_block_lengths(ctx):
+    rng = ctx.rng
+    from ibldsp.fourier import fshift
+    worst = 0.0
+    for n in block_lengths(ctx):
+        for mode in ('scalar_frac', 'pertrace', 'pertrace_int', 'adc', 'scalar_int'):
+            if ctx.quick and n > 4100 and mode in ('adc', 'scalar_int'):
+                continue
+            c = {'op': 'fshift_long', 'n': n, 'ntr': int(rng.choice([2, 3, 5])), 'axis': int(rng.choice([1, -1, 0])), 'mode': mode,
+                 'seed': int(rng.integers(0, 2 ** 31)), 'dtype': str(rng.choice(['float64', 'float64', 'float32']))}
+            w, sv = build_long(c)
+            wd = w.astype(c['dtype'])
+            ref = np_model_fshift(wd, sv, c['axis'])
+            try:
+                y = fshift(wd.copy(), sv.copy() if isinstance(sv, np.ndarray) else sv, axis=c['axis'])
+                e = float(np.max(np.abs(y.astype(np.float64) - ref))) / max(1.0, float(np.max(np.abs(w))))
+                worst = max(worst, e if c['dtype'] == 'float64' else 0.0)
+                ok = y.shape == wd.shape and y.dtype == wd.dtype and e <= (TOL64 if c['dtype'] == 'float64' else TOL32)
+                impl = 'ok' if ok else f'shape {y.shape} dtype {y.dtype} max relative difference {e:.3g}'
+            except Exception as ex:  # noqa
+                impl = _err_name(ex)
+            ctx.compare('fshift_long', c, impl, 'ok', tags=('fshift_long', 'mode:' + mode, 'bins%256=0' if (n // 2 + 1) % 256 == 0 else
+                                                            'n%256=0' if n % 256 == 0 else 'near-block', 'dtype:' + c['dtype']))
+    # tie of the NumPy evaluation to the Lean twin: same formula on small lengths, through the driver
+    lines, refs = [], []
+    for n in (2, 3, 4, 5, 8, 9, 16, 17, 31, 32):
+        r = np.random.default_rng([n, 5])
+        w = r.standard_normal((2, n)); sv = r.uniform(-2, 2, size=2)
+        lines.append(f'fshift2 {n} 1 V {_bits(sv)} {_rows_bits(w)}'); refs.append(np_model_fshift(w, sv, 1))
+    for a, ref, ln in zip(ctx.lean(lines), refs, lines):
+        ym = _dec_rows(a[3:]) if a.startswith('ok ') else None
+        good = ym is not None and ym.shape == ref.shape and float(np.max(np.abs(ym - ref))) <= 1e-11
+        ctx.compare('np_model_vs_lean', {'op': 'np_model_vs_lean', 'n': ref.shape[1]}, 'ok' if good else 'differs', 'ok', tags=('np_model_vs_lean',))
+    ctx.note(f'block-aligned lengths: largest |real code - model formula| / max(1,max|x|) in float64 = {worst:.3g}')
+
+
+def oracle_long(c):
+    """direct oracle on a long array given by its generator parameters: integer shifts = np.roll, per-trace = per-row scalar"""
+    from ibldsp.fourier import fshift
+    w, sv = build_long(c)
+    w = w.astype(c['dtype'])
+    axis = c['axis']
+    y = fshift(w.copy(), sv.copy() if isinstance(sv, np.ndarray) else sv, axis=axis)
+    if y.shape != w.shape or y.dtype != w.dtype:
+        return c, f'shape {y.shape} dtype {y.dtype}', f'shape {w.shape} dtype {w.dtype}'
+    rows = axis in (1, -1)
+    tol = 4 * _tol(w.dtype, w)
+    ntr = w.shape[0] if rows else w.shape[1]
+    for i in range(ntr):
+        tr = (w[i, :] if rows else w[:, i]).copy()
+        si = float(sv[i]) if isinstance(sv, np.ndarray) else float(sv)
+        got = (y[i, :] if rows else y[:, i]).astype(float)
+        ref = np.roll(tr, int(si)).astype(float) if si == int(si) else fshift(tr.copy(), si).astype(float)
+        if isinstance(sv, np.ndarray) or si == int(si):
+            d = float(np.max(np.abs(got - ref)))
+            if d > tol:
+                what = f'np.roll(trace, {int(si)})' if si == int(si) else f'fshift(trace, {si!r}) (scalar shift of that trace alone)'
+                return c, f'trace {i} of fshift(w, s, axis={axis}) differs from {what} by {d:.3g} (n = {c["n"]}, {ntr} traces)', what
+    return None
+
+
+# ---------------------------------------------------------------------------------------------
 # correspondence
 # ---------------------------------------------------------------------------------------------
 def _check_source_constants(ctx):
@@ -873,6 +986,7 @@ def correspondence(ctx):
     _check_source_constants(ctx)
     _corr_externals(ctx)
     _corr_fshift(ctx)
+    _corr_block_lengths(ctx)
     _corr_pmax(ctx)
     _corr_delay(ctx)
 
@@ -1247,6 +1361,8 @@ def search(ctx, reasons):
                 w, sv, _ = _build_2d(c)
                 for dt in (np.float64, np.float32):
                     add(guarded(oracle_pertrace, w, sv, c['axis'], dt), 'harness/props/c07.py oracle_pertrace(w, s, axis, dtype) on the disagreeing case')
+        elif c.get('op') == 'fshift_long':
+            add(guarded(oracle_long, c), 'harness/props/c07.py oracle_long(input) (input = generator parameters of build_long)')
         elif c.get('op') == 'pmax':
             add(guarded(oracle_pmax, c['x']), 'harness/props/c07.py oracle_pmax(x)')
             if c.get('form') and c['form'] != ['float64', 'C', 'pos']:
@@ -1455,6 +1571,9 @@ def replay(ctx, rep):
             r = run_sequence(i['sequence'])
             _LAST_SEQ[0] = list(r) if r else None
             print('call sequence:', r); return r is not None
+        if i.get('op') == 'fshift_long':
+            r = oracle_long(i)
+            print('oracle_long:', r[1:] if r else None); return r is not None
         if 'w' in i:
             from ibldsp.fourier import fshift
             w = np.array(i['w'], dtype=i['dtype']); s = np.array(i['s'], dtype=float) if isinstance(i['s'], list) else i['s']
